@@ -487,22 +487,24 @@ def firstShapeMismatch : List Nat → List Nat → List Char → Option (Char ×
   | n :: ns, m :: ms, c :: cs => if n != m then some (c, n, m) else firstShapeMismatch ns ms cs
   | _, _, _ => none
 
+/-- one round of the alignment loop: compare the indices of a term with those of the first term, transpose -/
+def alignTerm (sFirst sTerm : Sub) (indices : List Char) (iterm : Nat) (r : Res) : P (Ops × List Nat) :=
+  if r.indices != indices then
+    match charsMinus indices r.indices with
+    | some c => fail2 (.missingInTerm c iterm) sFirst.trim sTerm.trim
+    | none => match charsMinus r.indices indices with
+      | some c => fail2 (.missingInFirst c iterm) sFirst.trim sTerm.trim
+      | none =>
+        let axes := indices.map (r.indices.idxOf ·)
+        .ok (.transpose r.ops axes, axes.map (r.shape.getD · 0))
+  else .ok (r.ops, r.shape)
+
 /-- the alignment loop of `parse_expression` over the terms after the first -/
 def alignGo (sFirst : Sub) (shape : List Nat) (indices : List Char) :
     List (Bool × Sub × Res) → Nat → List Bool → List Ops → List Char → P (List Bool × List Ops × List Char)
   | [], _, negs, args, summed => .ok (negs, args, summed)
   | (neg, sTerm, r) :: rest, iterm, negs, args, summed =>
-    let aligned : P (Ops × List Nat) :=
-      if r.indices != indices then
-        match charsMinus indices r.indices with
-        | some c => fail2 (.missingInTerm c iterm) sFirst.trim sTerm.trim
-        | none => match charsMinus r.indices indices with
-          | some c => fail2 (.missingInFirst c iterm) sFirst.trim sTerm.trim
-          | none =>
-            let axes := indices.map (r.indices.idxOf ·)
-            .ok (.transpose r.ops axes, axes.map (r.shape.getD · 0))
-      else .ok (r.ops, r.shape)
-    match aligned with
+    match alignTerm sFirst sTerm indices iterm r with
     | .error e => .error e
     | .ok (ops, tshape) =>
       match firstShapeMismatch shape tshape indices with
@@ -513,20 +515,23 @@ def alignGo (sFirst : Sub) (shape : List Nat) (indices : List Char) :
 def stripMinus (s : Sub) : Option Sub :=
   if s.trimStart.startsWith ['-'] && (s.trimStart.dropN 1).len != 0 then some (s.trimStart.dropN 1) else none
 
+/-- the part of `parse_expression` after all terms have been parsed -/
+def exprCombine (s : Sub) (unaligned : List (Bool × Sub × Res)) : P Res :=
+  match unaligned with
+  | [] => fail (.expected true false) s      -- unreachable: isplit yields at least once
+  | (neg, sFirst, first) :: rest =>
+    if !neg && rest.isEmpty then .ok first
+    else
+      (alignGo sFirst first.shape first.indices rest 2 [neg] [first.ops] first.summed).bind fun a =>
+        .ok ⟨.add a.1 a.2.1, first.shape, first.indices, a.2.2⟩
+
 /-- `_Parser.parse_expression` -/
 def exprBody (Γ : Ctx) (rec : Rec) (s : Sub) : P Res :=
   let stripped := stripMinus s
   let negate := stripped.isSome
   let sTail := stripped.getD s
   (mapMIdx (fun _ (p : Option Nat × Sub) => (fractionBody Γ rec p.2).bind fun r => .ok (p.1 == some 1, p.2, r))
-      (sTail.isplit plusMinus (if negate then 1 else 0)) 0).bind fun unaligned =>
-    match unaligned with
-    | [] => fail (.expected true false) s      -- unreachable: isplit yields at least once
-    | (neg, sFirst, first) :: rest =>
-      if !neg && rest.isEmpty then .ok first
-      else
-        (alignGo sFirst first.shape first.indices rest 2 [neg] [first.ops] first.summed).bind fun a =>
-          .ok ⟨.add a.1 a.2.1, first.shape, first.indices, a.2.2⟩
+      (sTail.isplit plusMinus (if negate then 1 else 0)) 0).bind (exprCombine s)
 
 /-- closing the knot on fuel; `base` answers when the fuel is exhausted -/
 def parseExprB (Γ : Ctx) (base : Rec) : Nat → Sub → P Res
@@ -552,6 +557,16 @@ def parseAt (Γ : Ctx) (e : Entry) (l : List Char) : P Res :=
   | .item a => itemBody Γ rec' s a
 
 def parse (Γ : Ctx) (l : List Char) : P Res := parseAt Γ .expression l
+
+/-! ## `Namespace.__rmatmul__` / `__setattr__`: alignment of the parsed array -/
+
+/-- `_FunctionArrayOps.align(array, in_indices, out_indices)`: the axes handed to `transpose` -/
+def alignAxes (inI outI : List Char) : List Nat := outI.map (inI.idxOf ·)
+
+/-- `'expr' @ ns`: `ops.align(array, indices, ''.join(sorted(indices)))` -/
+def rmatmul (r : Res) : Ops × List Char :=
+  let out := r.indices.mergeSort (fun a b => decide (a.toNat ≤ b.toNat))
+  (.transpose r.ops (alignAxes r.indices out), out)
 
 /-! ## rendering of `ExpressionSyntaxError.__str__` (message line and marker line) -/
 
